@@ -1,6 +1,8 @@
 import PcfgVerif.Properties.ReproCore
 import PcfgVerif.Properties.PQCore
 import PcfgVerif.Properties.ReproEndToEnd
+import PcfgVerif.Lemmas.TrainedListedE
+import PcfgVerif.Properties.DetectCoreC
 /-!
 # C03 — every supported training password is reproduced by the trained grammar
 
@@ -68,5 +70,51 @@ theorem C03_reproduced {P : Type} (M : Detect.CMon P)
     ∃ (reps : List String) (bp : P) (idx : List Nat), (reps, bp) ∈ V.bases ∧ idx.length = reps.length ∧
       Detect.toStr pw ∈ productSpec upper V.E [] (Detect.mkPT reps idx) :=
   Detect.trained_password_reproduced M hnzd hone U upper cfg t pw hne hl hsc hcase g V hag he hw hs hin
+
+/-- exact rationals as the probability monoid (no zero divisors) -/
+def ratCMon : Detect.CMon Rat where
+  mul := (· * ·)
+  one := 1
+  zero := 0
+  mul_comm := Rat.mul_comm
+  mul_assoc := Rat.mul_assoc
+  one_mul := Rat.one_mul
+  zero_mul := Rat.zero_mul
+
+/-- **C03 for the trainer's own output, no listing hypothesis** (`Model/Trainer.lean`: the counters of the whole list;
+`Lemmas/TrainedListed*.lean`): take any training list `pws`, train on it (pass 1 the multi-word table, pass 2 the counters), write every
+counter through `calculate_probabilities` with a coverage in (0, 1] (`scoreGOf`: one list per category and length, `grammar.txt`
+with the Markov pseudo-count).  Then every password *of the list* whose parse is supported and has no e-mail / website part is one of
+the guesses of a pre-terminal of a guesser grammar that agrees with those lists — the hypothesis `AllListed` of `C03_reproduced` is
+discharged from the trainer model: each tally of the password's own parse is at least one, so its written probability
+count/total is not zero. -/
+theorem C03_trained_reproduced (U : Detect.UEnv) (upper : Char → List Char) (cfg : Detect.MWCfg) (pws : List CPs)
+    (pw : CPs) (hmem : pw ∈ pws) (cov : Rat) (h0 : 0 < cov) (h1 : cov ≤ 1)
+    (hne : pw ≠ []) (hl : Detect.LenPres U pw) (hsc : Detect.ScalarCPs pw) (hcase : Detect.CaseInvAll U upper pw)
+    (V : Detect.GView Rat)
+    (hag : Detect.Agree 0 (Trainer.scoreGOf cov pws.length (Trainer.train U cfg pws)) V)
+    (he : (Detect.parse U cfg (Trainer.pass1 U cfg pws) pw).emails = [])
+    (hw : (Detect.parse U cfg (Trainer.pass1 U cfg pws) pw).websites = [])
+    (hs : (Detect.parse U cfg (Trainer.pass1 U cfg pws) pw).supported = true) :
+    ∃ (reps : List String) (bp : Rat) (idx : List Nat), (reps, bp) ∈ V.bases ∧ idx.length = reps.length ∧
+      Detect.toStr pw ∈ productSpec upper V.E [] (Detect.mkPT reps idx) :=
+  Detect.trained_password_reproduced ratCMon
+    (fun a b ha hb => by
+      show a * b ≠ 0
+      intro h
+      rcases Rat.mul_eq_zero.mp h with h | h
+      · exact ha h
+      · exact hb h)
+    (by decide) U upper cfg _ pw hne hl hsc hcase _ V hag he hw hs
+    (Trainer.trained_all_listed U cfg pws pw hmem cov h0 h1 hs)
+
+/-- non-vacuity of the listing theorem: the ASCII environment, the list `Pass12!`, `abcd`, coverage 1/2 — the parse of `Pass12!`
+(`A4D2O1`) is supported and everything in it is listed by the grammar trained on the two passwords -/
+example : Detect.AllListed 0
+    (Trainer.scoreGOf (1/2) 2 (Trainer.train Detect.asciiC {} [cpsOfString "Pass12!", cpsOfString "abcd"]))
+    (Detect.parse Detect.asciiC {} (Trainer.pass1 Detect.asciiC {} [cpsOfString "Pass12!", cpsOfString "abcd"])
+      (cpsOfString "Pass12!")) :=
+  Trainer.trained_all_listed Detect.asciiC {} [cpsOfString "Pass12!", cpsOfString "abcd"] _ (by decide) (1/2)
+    (by decide +kernel) (by decide +kernel) (by decide +kernel)
 
 end Pcfg.C03
